@@ -258,6 +258,115 @@ pub fn run(tier: Tier) -> i32 {
         ctx.sample(json!({"object": label, "alphabet": al.iter().map(|a| a.0.clone()).collect::<Vec<_>>(), "depth": d, "states": g.states, "edges": g.edges, "reset_then_decompress_checks": g.reset_checks, "post_reset_states": g.post_reset_states}));
     });
     ctx.scope_done("history-graphs", jobs.len() as u64, t0, "3 LZMA parameter sets + LZMA2");
+    // ---------------------------------------------------------------- per-variable training: one adaptive probability (tree node)
+    // driven to a rail by 40 equal symbols, reset, then the sibling symbols that use the same node with the other bit
+    // value: every distance 1..=130 (all position-decoder nodes) and the slot edges up to 4096, every match length and
+    // rep-match length 2..=273 (choice bits, low / mid / high trees of both length coders)
+    {
+        let t1 = Instant::now();
+        #[derive(Clone, Copy)]
+        enum Var {
+            Dist(u32),
+            Len(u32),
+            RepLen(u32),
+        }
+        let mut vars: Vec<Var> = Vec::new();
+        for d in 1..=130u32 {
+            vars.push(Var::Dist(d));
+        }
+        for e in 7..=12u32 {
+            for d in [(1u32 << e) - 1, 1 << e, (1 << e) + 1, 3 << (e - 1)] {
+                vars.push(Var::Dist(d));
+            }
+        }
+        let lens: Vec<u32> = tier.pick((2..=273u32).filter(|l| *l < 40 || l % 8 < 2 || *l > 265).collect(), (2..=273u32).collect());
+        for &l in &lens {
+            vars.push(Var::Len(l));
+            vars.push(Var::RepLen(l));
+        }
+        let prefix: Vec<Sym> = (0..4200u32).map(|i| if i < 300 { Sym::L(((i * 37 + i / 5 + 1) & 0xFF) as u8) } else { Sym::M(1 + (i * 7) % 290, 2 + (i % 5)) }).collect::<Vec<_>>();
+        // (300 varied literals, then short copies until at least 4200 bytes exist, so that every distance used is valid)
+        let mut pre: Vec<Sym> = Vec::new();
+        let mut produced = 0usize;
+        for s_ in &prefix {
+            if produced >= 4200 {
+                break;
+            }
+            produced += match s_ {
+                Sym::M(_, l) => *l as usize,
+                _ => 1,
+            };
+            pre.push(*s_);
+        }
+        let sym_of = |v: Var| match v {
+            Var::Dist(d) => vec![Sym::M(d, 2), Sym::L(0x55)],
+            Var::Len(l) => vec![Sym::M(3, l), Sym::L(0x56)],
+            Var::RepLen(l) => vec![Sym::R(0, l), Sym::L(0x57)],
+        };
+        let siblings = |v: Var| -> Vec<Var> {
+            let mut o = Vec::new();
+            match v {
+                Var::Dist(d) => {
+                    for k in 0..12 {
+                        let x = ((d - 1) ^ (1 << k)) + 1;
+                        if x >= 1 && x <= 4200 {
+                            o.push(Var::Dist(x));
+                        }
+                    }
+                }
+                Var::Len(l) | Var::RepLen(l) => {
+                    for k in 0..8 {
+                        let x = ((l - 2) ^ (1 << k)) + 2;
+                        if (2..=273).contains(&x) {
+                            o.push(if matches!(v, Var::Len(_)) { Var::Len(x) } else { Var::RepLen(x) });
+                        }
+                    }
+                    for x in [2u32, 9, 10, 17, 18, 273] {
+                        o.push(if matches!(v, Var::Len(_)) { Var::Len(x) } else { Var::RepLen(x) });
+                    }
+                }
+            }
+            o
+        };
+        let p = Params { lzma2: false, lc: 3, lp: 0, pb: 2, dict: 8192, size: None };
+        par_for(vars.len() as u64, |i| {
+            let v = vars[i as usize];
+            let mut train = pre.clone();
+            train.push(Sym::M(3, 2)); // rep0 = 3 for the rep-length variables
+            for _ in 0..40 {
+                train.extend(sym_of(v));
+            }
+            train.push(Sym::E);
+            let mut probe = pre.clone();
+            probe.push(Sym::M(3, 2));
+            for sb in siblings(v) {
+                probe.extend(sym_of(sb));
+            }
+            probe.extend(sym_of(v));
+            probe.push(Sym::E);
+            let et = enc::encode(3, 0, 2, 8192, &train);
+            let ep = enc::encode(3, 0, 2, 8192, &probe);
+            if et.bad.is_some() || ep.bad.is_some() {
+                return;
+            }
+            let ops = vec![RawOp::Dec(Hex(et.payload.clone())), RawOp::Reset, RawOp::Dec(Hex(ep.payload.clone()))];
+            let case = case_of(&p, &ops);
+            let o = crate::cases::run_case(&case);
+            ctx.eval(3);
+            ctx.nontriv(1);
+            ctx.traces.fetch_add(1, Ordering::Relaxed);
+            let ok = o.ops.len() == 3 && o.ops[0].v.is_ok() && o.ops[2].v.is_ok() && o.out.0 == ep.expect && o.ops[2].n == Some(ep.payload.len() as u64);
+            if !ok {
+                let what = match v {
+                    Var::Dist(d) => format!("distance {}", d),
+                    Var::Len(l) => format!("match length {}", l),
+                    Var::RepLen(l) => format!("rep-match length {}", l),
+                };
+                ctx.violation(&case, &format!("raw::LzmaDecoder: 40 symbols with {} (one tree path trained to the rail), reset(None), then a stream using the sibling paths: behaves like a new decoder (Ok, {} bytes, {} input bytes)", what, ep.expect.len(), ep.payload.len()), &o, None);
+            }
+        });
+        ctx.scope_done("per-variable-training", vars.len() as u64, t1, "every distance 1..130 + slot edges, match and rep-match lengths, trained then probed through their sibling paths after a reset");
+    }
     // ---------------------------------------------------------------- long reuse: counters that wrap (8 / 16 bit) between two uses
     // history: decompress(A), then c-1 times [reset, decompress(B)], then reset, decompress(A'): the last call must behave
     // like a new decoder, for c around 2^8, 2*2^8 and 2^16 (B never touches the literal contexts A and A' use)
